@@ -410,21 +410,54 @@ def rule_ctl3(prog, labeller, table, tier):
             outs = [(kind[1], kind[2], kind[3])]
         else:
             continue
-        if len(outs) != 1:
+        if not outs:
+            raise Inconclusive('R-CTL-3', 'no returning path in handler of '
+                               '%s' % (key,), handler.where())
+        if len(outs) > 4:
             raise Inconclusive('R-CTL-3', '%d returning paths in handler of '
                                '%s' % (len(outs), key), handler.where())
+        # memo: the set is stored under the handler's own formula (on every
+        # returning path)
+        keyok = True
+        entries = []
+        for (term, p, L) in outs:
+            entries = [pp for pp in p.heap[L.oid].parts]
+            ok1 = len(entries) == 1 and entries[0].simple() and \
+                _same_formula(entries[0].key, val) and \
+                isinstance(entries[0].val, Obj) and \
+                isinstance(term, Coll) and entries[0].val.oid == term.oid
+            if not ok1 and not entries and kind[0] == 'direct' and \
+                    (key, handler.qn) in MEMO_BY_LABELLER:
+                # the handler only computes; the dispatcher stores what it
+                # returns under the formula it was asked about
+                ok1 = True
+            if not ok1:
+                keyok = False
+                break
+        if len(outs) > 1:
+            # several returning paths (e.g. an early exit): on each model
+            # the path whose conditions hold there is the one evaluated
+            from ..galg import Evaluator, deep_snapshot
+            pcs = [[(deep_snapshot(I, c, p), pol) for (c, pol) in p.pc]
+                   for (term, p, L) in outs]
+
+            def select(env):
+                hit = []
+                for k, pc in enumerate(pcs):
+                    e = Evaluator(env)
+                    if all(bool(e.ev(c)) == pol for (c, pol) in pc):
+                        if e.choice_points:
+                            raise NotEvaluable('path condition depends on '
+                                               'an arbitrary choice')
+                        hit.append(k)
+                if len(hit) != 1:
+                    raise NotEvaluable('%d of %d returning paths apply' % (
+                        len(hit), len(outs)))
+                return outs[hit[0]]
+        else:
+            def select(env):
+                return outs[0]
         term, p, L = outs[0]
-        # memo: the set is stored under the handler's own formula
-        entries = [pp for pp in p.heap[L.oid].parts]
-        keyok = len(entries) == 1 and entries[0].simple() and \
-            _same_formula(entries[0].key, val) and \
-            isinstance(entries[0].val, Obj) and \
-            isinstance(term, Coll) and entries[0].val.oid == term.oid
-        if not keyok and not entries and kind[0] == 'direct' and \
-                (key, handler.qn) in MEMO_BY_LABELLER:
-            # the handler only computes; the dispatcher stores what it
-            # returns under the formula it was asked about
-            keyok = True
         # evaluate
         nm = 0
         counter = None
@@ -443,6 +476,7 @@ def rule_ctl3(prog, labeller, table, tier):
                 for i, x in enumerate(P):
                     env[Sym('P%d' % i)] = x
                 want = spec_value(key, g, P, labels)
+                term, p, L = select(env)
                 try:
                     lo, hi = evaluate_set(term, env)
                     if not isinstance(lo, frozenset):
